@@ -650,6 +650,13 @@ func genHonest(c *core.Ctx) error {
 		{"only-unimplemented-common", []string{"PASSWORD"}, []string{"PASSWORD"}},
 		{"none-and-unknown", []string{"NONE", "BOGUS", "CLAIMTOBE"}, []string{"BOGUS", "NONE", "CLAIMTOBE"}},
 		{"two-implemented-orders", []string{"CLAIMTOBE", "FS"}, []string{"FS", "CLAIMTOBE"}},
+		// an endpoint with no (usable) method at all against one listing the methods a
+		// default configuration would have (FS, SSL, KERBEROS ...)
+		{"client-nil-vs-defaults", nil, []string{"FS", "SSL", "CLAIMTOBE"}},
+		{"client-emptyslice", []string{}, []string{"FS"}},
+		{"server-nil-vs-defaults", []string{"FS", "KERBEROS", "CLAIMTOBE"}, nil},
+		{"client-all-unimplemented", []string{"PASSWORD", "BOGUS"}, []string{"FS", "PASSWORD", "CLAIMTOBE"}},
+		{"duplicates-both-sides", []string{"CLAIMTOBE", "CLAIMTOBE", "FS", "FS"}, []string{"FS", "FS", "CLAIMTOBE", "CLAIMTOBE"}},
 	}
 	cshapes := []mshape{
 		{"common", []string{"AES"}, []string{"AES"}},
@@ -671,6 +678,9 @@ func genHonest(c *core.Ctx) error {
 						for ci, cs := range cshapes {
 							if c.Quick() && ci >= 2 && (cell+mi)%4 != 0 {
 								continue
+							}
+							if c.Quick() && mi >= 9 && ci == 1 && (cell+mi)%2 != 0 {
+								continue // quick: the empty / unimplemented / duplicate shapes without a cipher on half of the cells
 							}
 							for _, cmd := range []int{security.NoCommand, 60007} {
 								if c.Quick() && (cell+mi+ci+cmd)%2 == 0 {
